@@ -1082,7 +1082,7 @@ def gen_field(repo, outdir):
         for name in ["W", "DTH_ROOT", "EXT_MULTIPLICATIVE_GROUP_GENERATOR", "EXT_POWER_OF_TWO_GENERATOR"]:
             v, ty = const_table(seg, name, loc)
             lines.append("Definition EXT%d_%s : %s := %s." % (D, name, coq_type_of_const(v), coq_of_const(v)))
-    open(os.path.join(outdir, "FieldConsts.v"), "w").write("\n".join(lines) + "\n")
+    write_if_changed(os.path.join(outdir, "FieldConsts.v"), "\n".join(lines) + "\n")
 
     # ---- T2 functions
     ctx = Ctx(consts, {})
@@ -1139,7 +1139,7 @@ def gen_field(repo, outdir):
         for i in range(D):
             tr(ge, None, "ext%d_add_prods%d" % (D, i), "ext%d_add_prods%d" % (D, i))
         tr(ge, None, "ext%d_mul" % D, "ext%d_mul" % D)
-    open(os.path.join(outdir, "GoldilocksImpl.v"), "w").write("\n".join(out))
+    write_if_changed(os.path.join(outdir, "GoldilocksImpl.v"), "\n".join(out))
 
 def compile_exp_acc(fc, params, ret, body):
     # fn exp_acc<const N: usize>(base, tail) { base.exp_power_of_2(N) * tail }
@@ -1186,7 +1186,7 @@ def gen_poseidon(repo, outdir):
     for name in ["MDS_FREQ_BLOCK_ONE", "MDS_FREQ_BLOCK_TWO", "MDS_FREQ_BLOCK_THREE"]:
         v, ty = const_table(pg, name, consts)
         mds_consts[name] = (v, ty)
-    open(os.path.join(outdir, "PoseidonConsts.v"), "w").write("\n".join(lines) + "\n")
+    write_if_changed(os.path.join(outdir, "PoseidonConsts.v"), "\n".join(lines) + "\n")
 
     # functions
     # reuse field function signatures
@@ -1211,7 +1211,14 @@ def gen_poseidon(repo, outdir):
     for f in ["fft2_real", "ifft2_real_unreduced", "fft4_real", "ifft4_real_unreduced", "block1", "block2", "block3",
               "mds_multiply_freq"]:
         tr(pg, "mod poseidon12_mds", f, "mds_" + f if not f.startswith("mds_") else f)
-    open(os.path.join(outdir, "PoseidonImpl.v"), "w").write("\n".join(out))
+    write_if_changed(os.path.join(outdir, "PoseidonImpl.v"), "\n".join(out))
+
+def write_if_changed(path, text):
+    """keep timestamps of unchanged generated files so that make does not rebuild their dependants"""
+    if os.path.exists(path) and open(path).read() == text:
+        return
+    open(path, "w").write(text)
+
 
 def main():
     repo = sys.argv[1] if len(sys.argv) > 1 else "/repo"
